@@ -30,7 +30,7 @@ from run import Broken, Violation
 sys.path.insert(0, os.path.join(os.path.dirname(os.path.abspath(__file__)), ".."))
 from builders import sevenzip_c09 as szb  # noqa: E402
 
-GEN = ["Router", "Archive"]
+GEN = ["Router", "Archive", "PyRouter", "PySevenZip", "PyArchive"]
 RULE = ("archives = format (zip | tar, tar.gz, tar.bz2, tar.xz | 7z solid / no-folders / per-file) x 1..7 members drawn from a "
         "hostile name grammar (absolute, ../ chains, backslashes, drive letters, empty, long, unicode, hidden, __MACOSX, "
         "names of existing canary files, duplicate and file/dir-conflicting names) x member kind (regular, dir, symlink, "
